@@ -86,13 +86,15 @@ def merge_streams(outs):
 
 # per property: Lean modules holding its theorems, the streams it runs, the oracle it reads
 SPECS = {
-    "C01": dict(modules=["Ovldverif.Props.C01"], streams=["fn", "fn_rich"], oracle="C01"),
-    "C02": dict(modules=["Ovldverif.Props.C02"], streams=["table_static", "fn_static"], oracle="C02"),
+    "C01": dict(modules=["Ovldverif.Props.C01"], streams=["fn", "fn_rich", "dep_f"], oracle="C01"),
+    "C10": dict(modules=["Ovldverif.Props.C10"], streams=["dep_e", "dep_f", "dep_lit"], oracle="C10"),
+    "C11": dict(modules=["Ovldverif.Props.C11"], streams=["dep_e", "dep_f", "dep_lit"], oracle="C11"),
+    "C02": dict(modules=["Ovldverif.Props.C02"], streams=["table_static", "fn_static", "levels"], oracle="C02"),
     "C03": dict(modules=["Ovldverif.Props.C03"], streams=["fn", "fn_static"], oracle="C03"),
     "C04": dict(modules=["Ovldverif.Props.C04"], streams=["table_static", "table_rich", "fn"], oracle="C04"),
     "C05": dict(modules=["Ovldverif.Props.C05"], streams=["table_static", "table_rich", "fn"], oracle="C05"),
-    "C06": dict(modules=["Ovldverif.Props.C06"], streams=["table_static", "fn_static"], oracle="C06"),
-    "C07": dict(modules=["Ovldverif.Props.C07"], streams=["table_static", "fn_static"], oracle="C07"),
+    "C06": dict(modules=["Ovldverif.Props.C06"], streams=["table_static", "fn_static", "levels", "levels_rich"], oracle="C06"),
+    "C07": dict(modules=["Ovldverif.Props.C07"], streams=["table_static", "fn_static", "levels"], oracle="C07"),
     "C20": dict(modules=["Ovldverif.Props.C20"], streams=["table_rich", "fn"], oracle="C20"),
     "C16": dict(modules=["Ovldverif.Props.C16"], streams=["graph"], oracle="C16"),
     "C08": dict(modules=["Ovldverif.Props.C08"], streams=["graph", "graph_deep"], oracle="C08"),
@@ -104,6 +106,11 @@ STREAMS = {
     "fn": ("check_fn", "worker", lambda seed, n: (seed + 11, n, {"static_only": False}), "F"),
     "fn_static": ("check_fn", "worker", lambda seed, n: (seed + 13, n, {"static_only": True}), "F"),
     "fn_rich": ("check_fn", "worker", lambda seed, n: (seed + 17, n, {"static_only": False, "bodies": True}), "F"),
+    "dep_e": ("check_dep", "worker_e", lambda seed, n: (seed + 29, n, None), "E"),
+    "dep_lit": ("check_dep", "worker_e", lambda seed, n: (seed + 31, n, "literals"), "E"),
+    "dep_f": ("check_dep", "worker_f", lambda seed, n: (seed + 37, max(10, n // 2), None), "F"),
+    "levels": ("corr_c", "worker", lambda seed, n: (seed + 41, n, True), "C"),
+    "levels_rich": ("corr_c", "worker", lambda seed, n: (seed + 43, n, False), "C"),
     "graph": ("check_graph", "worker", lambda seed, n: (seed + 19, n, {}), "G"),
     "graph_deep": ("check_graph", "worker", lambda seed, n: (seed + 23, n, {"nnodes": 6}), "G"),
 }
@@ -122,6 +129,16 @@ def run_generic(prop, tier, seed, t0):
         payloads = [mk(seed * 100003 + i * 31, per) for i in range(k)]
         outs += fw.parallel(mod, fn, payloads)
     tot = merge_streams(outs)
+    # a broken levels correspondence: directed search for an input on which the property itself fails
+    lv = [c for c in tot["corr"] if c.get("layer") == "C"]
+    if lv:
+        import check_table
+
+        extra = check_table.directed_from_levels(lv)
+        if extra:
+            corr_keep = tot["corr"]
+            tot = merge_streams([tot, extra])
+            tot["corr"] = corr_keep
     oc = tot["oracles"].get(spec["oracle"], {"n": 0, "nontrivial": 0, "viol": [], "known": {}})
     known = fw.load_known(prop)
     import witness as wit
